@@ -61,4 +61,16 @@ func init() {
 		Shards: [2]int{16, 16}, MinEvals: [2]int{500, 3000},
 		RequirePositive: "cmp:", RequireCount: 32,
 	})
+	reg(&propCfg{
+		ID: "C07", Level: "exploration",
+		Rule: "the real And/Or/Majority/Split/Inverse/NoLoss/StopLoss combinators (and nestings NoLoss(StopLoss), StopLoss(NoLoss), Inverse(NoLoss), NoLoss(Inverse), NoLoss(And)) wrap scripted stub strategies that replay chosen action words; the output is compared with slice models of the specified combination (votes over position-wise DENORMALISED words, split rule, swap, explicit no-loss / stop-loss state machines over (action, close)) and, independently, with two trace safety monitors (no Sell at a close not above the preceding Buy's close; a Sell at the first close <= buy*(1-pct)). Exhaustive: all tuples of k words of length n for k=1 (n<=7), k=2 (n<=4), k=3 (n<=2 quick / n<=3 thorough) x 4 closing series x 3 percentages where relevant; plus random words up to length 200 with up to 6 sub-strategies. MACD-RSI is compared with the agreement rule over its own two real sub-strategies. distinct_nontrivial counts distinct (shape, word tuple) cases with n >= 2.",
+		Exhaustive: "all k-tuples of action words over {Sell,Hold,Buy}: k=1 n<=7, k=2 n<=4, k=3 n<=2 (quick) / n<=3 (thorough), for every combinator shape",
+		Shards: [2]int{16, 16}, MinEvals: [2]int{100, 300},
+	})
+	reg(&propCfg{
+		ID: "C08", Level: "exploration",
+		Rule: "strategy.Outcome is run on channels for EVERY action word over {Sell,Hold,Buy} up to length 7 (quick) / 8 (thorough) x 6 positive value series (rising, halving, 1e-3 and 1e6 magnitudes, flat, jagged) and for random words/values up to length 300 with unequal stream lengths both ways; each run is compared with an independent (cash, shares) simulator (1e-12) and passed through invariant monitors (one entry per pair, >= -100%, 0 until the first Buy, bit-identical after NormalizeActions, strict Buy/Sell alternation of normalised streams, Normalize(Denormalize(x)) == x, CountTransactions = running non-Hold count, both producers reach close); buy-and-hold through ComputeWithOutcome equals v_i/v_0 - 1. distinct_nontrivial counts distinct words with at least two non-Hold actions plus random cases.",
+		Exhaustive: "all action words of length <= 7 (quick) / <= 8 (thorough) x 6 value series",
+		Shards: [2]int{16, 16}, MinEvals: [2]int{40, 100},
+	})
 }
